@@ -28,7 +28,7 @@ ASSUMPTIONS = [
     'libsodium called directly decides certificate / sigfield signatures',
 ]
 NSH = 16
-NCHAIN = {'quick': 6000, 'thorough': 60_000}
+NCHAIN = {'quick': 6000, 'thorough': 180_000}
 T0 = 1_600_000_000
 
 
